@@ -8,3 +8,4 @@ NEXT Next
 INVARIANT MeetsContract
 INVARIANT Idempotent
 INVARIANT CleanKept
+INVARIANT FastAgrees
